@@ -224,6 +224,17 @@ pub fn apply_prefix_over_at(data: Vec<u8>, start: usize, log: &[Op], k: usize, t
 pub struct MemFile {
     pub data: Arc<Vec<u8>>,
     pub pos: u64,
+    /// > 0: a read() call returns at most this many bytes (short reads, as the Read contract allows)
+    pub read_cap: usize,
+}
+
+thread_local! {
+    static READ_CAP: std::cell::Cell<usize> = std::cell::Cell::new(0);
+}
+
+/// sources opened on this thread from now on hand out at most `cap` bytes per read() (0 = everything)
+pub fn set_read_cap(cap: usize) {
+    READ_CAP.with(|c| c.set(cap));
 }
 
 impl MemFile {
@@ -231,6 +242,7 @@ impl MemFile {
         MemFile {
             data: Arc::new(data),
             pos: 0,
+            read_cap: READ_CAP.with(|c| c.get()),
         }
     }
 }
@@ -241,7 +253,10 @@ impl Read for MemFile {
         if self.pos >= len {
             return Ok(0);
         }
-        let n = buf.len().min((len - self.pos) as usize);
+        let mut n = buf.len().min((len - self.pos) as usize);
+        if self.read_cap > 0 {
+            n = n.min(self.read_cap);
+        }
         let p = self.pos as usize;
         buf[..n].copy_from_slice(&self.data[p..p + n]);
         self.pos += n as u64;
@@ -269,6 +284,7 @@ impl Reopen for MemFile {
         Ok(MemFile {
             data: self.data.clone(),
             pos: 0,
+            read_cap: self.read_cap,
         })
     }
 }
